@@ -98,6 +98,9 @@ ErrKinds == << "ExpiredToken", "IO", "InternalServiceError", "InvalidBodyEncodin
                "MalformedQueryString", "MissingAuthenticationToken", "SignatureDoesNotMatch" >>
 ErrVias == << "direct", "box", "foreign", "io" >>
 
+\* the six ASCII white-space candidates (VT is not white space for the trimming helpers), a letter, a high byte
+TrimSigma == <<32, 9, 10, 11, 12, 13, 97, 233>>
+
 \* C05 container: operation alphabet
 VNames == << B("x-a"), B("X-A"), B("x-ab"), B("X-a") >>
 VLists == << "always", "ifin", "prefix" >>
@@ -132,6 +135,8 @@ Dim(k) ==
       [] Family = "foldsize"     -> IF k <= 3 THEN <<Len(FoldSizes), Len(FoldPaths), 2>>[k] ELSE 0
       [] Family = "errtable"     -> IF k <= 2 THEN <<Len(ErrKinds), Len(ErrVias)>>[k] ELSE 0
       [] Family = "builders"     -> IF k = 1 THEN 1 ELSE 0
+      [] Family = "helper_bytes" -> IF k <= 2 THEN <<3, 256>>[k] ELSE 0
+      [] Family = "helper_trim"  -> IF k = 1 THEN 3 ELSE IF k <= Bound + 1 THEN Len(TrimSigma) ELSE 0
       [] Family = "leakfn"       -> IF k = 1 THEN Len(LeakSecrets) ELSE 0
       [] Family = "vreqs"        -> IF k = 1 THEN Len(VInits) ELSE IF k <= Bound + 1 THEN 24 ELSE 0
 
@@ -141,6 +146,7 @@ IsCase ==
       [] Family = "query_lists"  -> TRUE
       [] Family = "query_ampamp" -> Len(idx) >= 2
       [] Family = "hval"         -> TRUE
+      [] Family = "helper_trim"  -> Len(idx) >= 1
       [] Family = "vreqs"        -> Len(idx) >= 1
       [] OTHER -> Dim(Len(idx) + 1) = 0
 
@@ -216,6 +222,10 @@ Case ==
       [] Family = "foldsize" -> [op |-> "foldsize", n |-> FoldSizes[idx[1]], path |-> FoldPaths[idx[2]], fold |-> Bool(idx[3])]
       [] Family = "errtable" -> [op |-> "err", kind |-> ErrKinds[idx[1]], via |-> ErrVias[idx[2]]]
       [] Family = "builders" -> [op |-> "builders"]
+      [] Family = "helper_bytes" -> [op |-> "helper", f |-> <<"hex", "unres", "latin1">>[idx[1]], b |-> <<idx[2] - 1>>]
+      [] Family = "helper_trim" ->
+            [op |-> "helper", f |-> <<"trim", "trim_start", "trim_end">>[idx[1]],
+             b |-> [i \in 1..(Len(idx) - 1) |-> TrimSigma[idx[i + 1]]]]
       [] Family = "leakfn" -> [op |-> "leakfn", secret |-> LeakSecrets[idx[1]]]
       [] Family = "vreqs" ->
             [op |-> "vreqs", always |-> VInits[idx[1]], ifin |-> VInits[idx[1]], prefix |-> VInits[idx[1]],
